@@ -108,11 +108,44 @@ func (s *Session) AuthMechanisms() []string {
 }
 
 func (s *Session) Auth(mech string) (sasl.Server, error) {
-	return s.endp.saslAuth.CreateSASL(mech, s.connState.RemoteAddr, func(identity string, data auth.ContextData) error {
+	return saslReplies{s.endp.saslAuth.CreateSASL(mech, s.connState.RemoteAddr, func(identity string, data auth.ContextData) error {
 		s.connState.AuthUser = identity
 		s.connState.AuthPassword = data.Password
 		return nil
-	}), nil
+	})}, nil
+}
+
+// saslReplies gives the failures of an authentication exchange their SMTP
+// replies: go-smtp answers "454 4.7.0" to any error that is not an SMTPError,
+// which made rejected credentials look like a temporary problem.
+type saslReplies struct {
+	sasl.Server
+}
+
+func (r saslReplies) Next(response []byte) ([]byte, bool, error) {
+	challenge, done, err := r.Server.Next(response)
+	switch {
+	case err == nil:
+	case exterrors.IsTemporary(err):
+		err = &smtp.SMTPError{
+			Code:         454,
+			EnhancedCode: smtp.EnhancedCode{4, 7, 0},
+			Message:      "Temporary authentication failure",
+		}
+	case errors.Is(err, auth.ErrInvalidAuthCred):
+		err = &smtp.SMTPError{
+			Code:         535,
+			EnhancedCode: smtp.EnhancedCode{5, 7, 8},
+			Message:      "Invalid credentials",
+		}
+	case errors.Is(err, auth.ErrUnsupportedMech):
+		err = &smtp.SMTPError{
+			Code:         504,
+			EnhancedCode: smtp.EnhancedCode{5, 5, 4},
+			Message:      "Unsupported authentication mechanism",
+		}
+	}
+	return challenge, done, err
 }
 
 func (s *Session) Reset() {
